@@ -42,4 +42,21 @@ theorem powCountOK_inv {r T : ℚ} {n : ℕ} (hr : 0 < r) (hT : 0 < T) (h : powC
     refine ⟨?_, one_div_le_one_div_of_le hT h2, one_div_le_one_div_of_le hp2 h3⟩
     rw [lt_div_iff₀ hr]; simpa using h1
 
+/-- `start_size<count+c2c` returns for every positive ratio -/
+theorem startCountC2c_ok_of_pos {L r : ℚ} {n : ℕ} (hL : 0 < L) (hn : 1 ≤ n) (hr : 0 < r) :
+    ∃ s, startCountC2c L n r = .ok s := by
+  unfold startCountC2c
+  simp only [guardLen_bind, guardCountGe1_bind, guardRatio_bind]
+  rw [if_neg (not_le.mpr hL), if_neg (by omega), if_neg (ne_of_gt hr)]
+  by_cases hb : absR (r - 1) > TOL
+  · have hr1 : r ≠ 1 := by
+      intro h1
+      rw [h1] at hb
+      simp [absR] at hb
+      exact absurd hb (not_lt.mpr (le_of_lt TOL_pos))
+    rw [if_pos hb, if_neg (sub_ne_zero.mpr (Ne.symm (pow_ne_one_of_pos hr hr1 hn)))]
+    exact ⟨_, rfl⟩
+  · rw [if_neg hb]
+    exact ⟨_, rfl⟩
+
 end CBV.C03
